@@ -20,6 +20,8 @@ PATTERNS = [
     ("re", "a.*"), ("re", ".*1"), ("re", "[ab]1?"), ("re", "a1"), ("reflags", ("a.*", re.IGNORECASE)), ("re", "a"),
     ("fn", "startswith_a"), ("fn", "has_children"), ("fn", "never"), ("data", 6),
     ("data", 12),    # a data object that is neither str nor callable: matched by identity (`node.data is match`)
+    ("reflags", ("a", re.IGNORECASE)), ("reflags", ("b1", re.IGNORECASE)),     # flags on a pattern without any special character
+    ("fn", "n_children"), ("fn", "name_if_a"),     # predicates that answer with truthy / falsy values other than True / False
 ]
 KS = [None, 1, 2, 3, 5]
 
@@ -30,8 +32,10 @@ def matcher(kind, arg, pool):
     if kind == "reflags":
         return arg, (lambda n: re.fullmatch(arg[0], n.name, arg[1]) is not None)
     if kind == "fn":
-        f = {"startswith_a": lambda n: n.name.startswith("a"), "has_children": lambda n: bool(n.children), "never": lambda n: False}[arg]
-        return f, f
+        f = {"startswith_a": lambda n: n.name.startswith("a"), "has_children": lambda n: bool(n.children), "never": lambda n: False,
+             "n_children": lambda n: len(n.children),                              # 0 / 1 / 2 ...
+             "name_if_a": lambda n: n.name if n.name.lower().startswith("a") else ""}[arg]      # a str or ''
+        return f, (lambda n, _f=f: bool(_f(n)))
     if kind == "data":
         o = pool.objs[arg]
         return o, (lambda n: n.data is o)
